@@ -72,9 +72,12 @@ fn collection_case(kind: u8, size: usize, seed: u64, borrowed: bool, probe: &mut
         match kind % 5 {
             0 => {
                 let v: Vec<u64> = if borrowed { elem.to_collection_generator(size).sample(&mut rng) } else { Generator::new(&elem, size).sample(&mut rng) };
-                // tagged values arrive in generation order
-                let ordered = v.iter().enumerate().all(|(i, x)| *x == i as u64);
-                (if ordered { v.len() } else { usize::MAX }, size as u64)
+                // every element is one the element generator emitted in this call, each exactly once
+                // (the order in which they are stored is not part of the property)
+                let mut sorted = v.clone();
+                sorted.sort_unstable();
+                let all_from_generator = sorted.iter().enumerate().all(|(i, x)| *x == i as u64);
+                (if all_from_generator { v.len() } else { usize::MAX }, size as u64)
             }
             1 => {
                 let b: Bitstring = if borrowed { elem.to_collection_generator(size).sample(&mut rng) } else { (&elem).into_collection_generator(size).sample(&mut rng) };
@@ -101,7 +104,7 @@ fn collection_case(kind: u8, size: usize, seed: u64, borrowed: bool, probe: &mut
         Ok(r) => r,
         Err(p) => fail!(format!("{name}/panic:{}", panic_key(&p)), "generating {size} elements panicked: {p}"),
     };
-    ensure!(len != usize::MAX, format!("{name}/elements-not-from-generator-in-order"), "requested {size}: elements are not the element generator's output in order / inner collections have the wrong size");
+    ensure!(len != usize::MAX, format!("{name}/elements-not-from-generator"), "requested {size}: the elements are not exactly the element generator's output of this call / inner collections have the wrong size");
     ensure!(len == size, format!("{name}/wrong-size"), "requested {size} elements, got {len}");
     ensure!(
         elem.calls.get() == asked_expected,
@@ -349,7 +352,7 @@ fn uniformity_jobs() -> Vec<Job> {
 }
 
 pub fn run(ctx: &mut Ctx) {
-    ctx.rule = "collections: sizes 0..300 plus boundary sizes up to 5000 (and 100000 once per run) through Generator for Vec<T>, Bitstring, Plushy, populations of scored individuals and nested collections, into_ and to_ flavours, with an element generator that counts how often it is asked and tags what it emits (length = size, asked exactly size times, elements in generation order). choices: all 14 conversion flavours of conversion.rs (Vec / array / slice x into / to x owned-cloning / borrowing / cloning) plus uniform_distribution_of!, sources of length 0..8 with and without duplicates: empty => rejected at construction without panic; samples are members (pointer identity for borrowing flavours), num_choices = length; member frequencies = multiplicity / length (Chernoff/KL). non-trivial = size >= 2 / source length >= 2; statistics with 0 < p < 1".into();
+    ctx.rule = "collections: sizes 0..300 plus boundary sizes up to 5000 (and 100000 once per run) through Generator for Vec<T>, Bitstring, Plushy, populations of scored individuals and nested collections, into_ and to_ flavours, with an element generator that counts how often it is asked and tags what it emits (length = size, asked exactly size times, elements are exactly the generator's output). choices: all 14 conversion flavours of conversion.rs (Vec / array / slice x into / to x owned-cloning / borrowing / cloning) plus uniform_distribution_of!, sources of length 0..8 with and without duplicates: empty => rejected at construction without panic; samples are members (pointer identity for borrowing flavours), num_choices = length; member frequencies = multiplicity / length (Chernoff/KL). non-trivial = size >= 2 / source length >= 2; statistics with 0 < p < 1".into();
     let (n, trials, max) = ctx.tier.pick((300_000u32, 300_000u64, 300usize), (5_000_000, 5_000_000, 2_000));
     // one very large request per run
     ctx.run_cases(
